@@ -151,76 +151,101 @@ def check_response(ctx, spec, method, resp, wit):
 
 
 def one_case(ctx, rng, idx, mem, deadline):
-    rid = "r%d-%d" % (ctx.job["index"] if ctx.job else 0, idx)
-    req = hg.gen_request(rng, rid)
-    spec = hg.gen_appspec(rng, rid, statuses=[s for s in sorted(hg.REASONS)])
+    """one connection: 1 request (mostly) or 2-3 requests one after the other through the same Patron (each with its own
+    payload kind, so that nothing of an earlier request may survive in the client's requester or the server's requestant)"""
+    nreq = rng.choice([1, 1, 1, 2, 2, 3])
+    cur = {}
     seen = []
-    app = hg.make_app(lambda environ: spec, seen)
+    app = hg.make_app(lambda environ: cur["spec"], seen)
     state = {"stage": "build"}
-    wit = lambda extra: jsonable(dict({"request": req, "app": {k: v for k, v in spec.items()}, "transport": "memory" if mem else "loopback"},
-                                      **extra))
     pair = None
+    req = spec = None
+    wit = lambda extra: jsonable(dict({"request": req, "app": {k: v for k, v in (spec or {}).items()},
+                                       "transport": "memory" if mem else "loopback"}, **extra))
     try:
         pair = hg.Pair(app, rng=rng, mem=mem)
-        req["port"] = pair.port
-        req["host"] = pair.host
         patron = pair.patron()
-        kw = {"method": req["method"], "path": req["path"], "qargs": _od(req["qargs"]), "headers": _od(req["headers"])}
-        if req["kind"] == "body":
-            kw["body"] = req["body"]
-        elif req["kind"] == "json":
-            kw["data"] = req["data"]
-        elif req["kind"] in ("form", "multipart"):
-            kw["fargs"] = _od(req["fargs"])
-        patron.request(**kw)
-        state["stage"] = "service"
-        done = pair.pump(lambda: bool(patron.responses) or time.time() > deadline, cap=120)
-        ctx.event(pair.rounds)
-        if time.time() > deadline:
-            ctx.inconclusive_case("wall-clock watchdog")
-            return
-        reqbytes = bytes(patron.requester.msg)
-        w2 = lambda extra: wit(dict({"request_bytes": reqbytes,
-                                     "response_bytes": bytes(pair.net.conns[0][3].total) if mem else None}, **extra))
-        reached = ctx.check(len(seen) == 1, "request/application-calls/%s" % ("none" if not seen else "many"),
-                            "the WSGI application was called %d times for one request" % len(seen), lambda: w2({}))
-        if seen:
-            rq = list(pair.valet.reqs.values())
-            # the Requestant of the connection (kept by the valet while the connection lives)
-            reqt = None
-            if rq:
-                r = rq[0]
-                reqt = {"method": r.method, "path": r.path, "query": r.query, "body": bytes(r.body),
-                        "headers": {str(k).lower(): v for k, v in r.headers.items()}}
-            if reqt is None:
-                snap = seen[0]
-                reqt = {"method": snap.get("REQUEST_METHOD"), "path": snap.get("PATH_INFO"), "query": snap.get("QUERY_STRING"),
-                        "body": snap.get("wsgi.input.read"), "headers": {k[5:].lower().replace("_", "-"): v for k, v in snap.items()
-                                                                        if k.startswith("HTTP_")}}
-                ctx.hit("requestant_gone")
-            check_request(ctx, req, seen[0], reqt, w2)
-        got = ctx.check(done and bool(patron.responses), "response/none/" + spec["shape"],
-                        "no response reached the client within 120 service rounds", lambda: w2({}))
-        if got:
-            resp = patron.responses[0]
-            check_response(ctx, spec, req["method"], resp, w2)
-        ctx.case((req, {k: v for k, v in spec.items() if k != "expect"}), nontrivial=bool(seen) and got)
-        ctx.hit("kind:" + req["kind"])
-        ctx.hit("shape:" + spec["shape"])
-        ctx.hit("method:" + req["method"])
-        ctx.hit("transport:" + ("memory" if mem else "loopback"))
-        if len(ctx.samples) < 2 and got:
-            ctx.sample(jsonable({"request_bytes": reqbytes, "app_shape": spec["shape"],
-                                 "client_got": {"status": patron.responses[0]["status"], "body": bytes(patron.responses[0]["body"])}}))
+        earlier = []
+        for k in range(nreq):
+            state["stage"] = "build"
+            rid = "r%d-%d-%d" % (ctx.job["index"] if ctx.job else 0, idx, k)
+            req = hg.gen_request(rng, rid)
+            if nreq > 1 and (req["method"] == "HEAD" or rng.random() < 0.12):
+                # a response that has no body by definition (to HEAD, 204, 304): no-body semantics belong to the application,
+                # so it produces none -- with or without a Content-Length -- and the connection must stay usable
+                spec = hg.gen_appspec(rng, rid, shapes=("empty", "empty-cl0"),
+                                      statuses=[s for s in sorted(hg.REASONS)] if req["method"] == "HEAD" else [204, 304])
+                ctx.hit("bodiless_response_in_sequence")
+            else:
+                spec = hg.gen_appspec(rng, rid, statuses=[s for s in sorted(hg.REASONS)])
+            cur["spec"] = spec
+            req["port"] = pair.port
+            req["host"] = pair.host
+            kw = {"method": req["method"], "path": req["path"], "qargs": _od(req["qargs"]), "headers": _od(req["headers"])}
+            if req["kind"] == "body":
+                kw["body"] = req["body"]
+            elif req["kind"] == "json":
+                kw["data"] = req["data"]
+            elif req["kind"] in ("form", "multipart"):
+                kw["fargs"] = _od(req["fargs"])
+            patron.request(**kw)
+            state["stage"] = "service"
+            done = pair.pump(lambda: len(patron.responses) > k or time.time() > deadline, cap=120)
+            ctx.event(pair.rounds)
+            if time.time() > deadline:
+                ctx.inconclusive_case("wall-clock watchdog")
+                return
+            reqbytes = bytes(patron.requester.msg)
+            w2 = lambda extra: wit(dict({"request_bytes": reqbytes, "request_number_on_connection": k, "earlier_requests": earlier,
+                                         "response_bytes": bytes(pair.net.conns[0][3].total) if mem else None}, **extra))
+            reached = ctx.check(len(seen) == k + 1, "request/application-calls/%s" % ("none" if len(seen) <= k else "many"),
+                                "the WSGI application was called %d times for %d request(s)" % (len(seen), k + 1), lambda: w2({}))
+            if len(seen) > k:
+                rq = list(pair.valet.reqs.values())
+                # the Requestant of the connection (kept by the valet while the connection lives)
+                reqt = None
+                if rq:
+                    r = rq[0]
+                    reqt = {"method": r.method, "path": r.path, "query": r.query, "body": bytes(r.body),
+                            "headers": {str(a).lower(): v for a, v in r.headers.items()}}
+                if reqt is None:
+                    snap = seen[k]
+                    reqt = {"method": snap.get("REQUEST_METHOD"), "path": snap.get("PATH_INFO"), "query": snap.get("QUERY_STRING"),
+                            "body": snap.get("wsgi.input.read"), "headers": {a[5:].lower().replace("_", "-"): v for a, v in snap.items()
+                                                                            if a.startswith("HTTP_")}}
+                    ctx.hit("requestant_gone")
+                check_request(ctx, req, seen[k], reqt, w2)
+            got = ctx.check(done and len(patron.responses) > k, "response/none/" + spec["shape"],
+                            "no response reached the client within 120 service rounds", lambda: w2({}))
+            if got:
+                resp = patron.responses[k]
+                check_response(ctx, spec, req["method"], resp, w2)
+            ctx.case((earlier, req, {a: v for a, v in spec.items() if a != "expect"}), nontrivial=len(seen) > k and got)
+            ctx.hit("kind:" + req["kind"])
+            ctx.hit("shape:" + spec["shape"])
+            ctx.hit("method:" + req["method"])
+            ctx.hit("transport:" + ("memory" if mem else "loopback"))
+            if k:
+                ctx.hit("later_request_on_same_patron")
+                if earlier[-1] != req["kind"]:
+                    ctx.hit("later_request_other_payload_kind")
+            if len(ctx.samples) < 2 and got:
+                ctx.sample(jsonable({"request_bytes": reqbytes, "app_shape": spec["shape"],
+                                     "client_got": {"status": patron.responses[k]["status"], "body": bytes(patron.responses[k]["body"])}}))
+            earlier.append(req["kind"])
+            conn = patron.connector
+            if not got or len(seen) != k + 1 or conn.cutoff or not conn.connected or not conn.cs:
+                break            # the connection did not persist (close-delimited response ...): the sequence ends here
     except Exception as ex:
-        if isinstance(ex, (OSError, RuntimeError)) and state["stage"] == "build":
+        if isinstance(ex, (OSError, RuntimeError)) and state["stage"] == "build" and pair is None:
             raise                                   # the harness could not open its own sockets
-        ctx.case((req, spec["shape"]), nontrivial=False)
+        ctx.case((req, (spec or {}).get("shape")), nontrivial=False)
         ctx.fail("exception/%s/%s" % (state["stage"], exc_key(ex)),
                  "%s: %s escapes while a well-formed exchange is %s" % (type(ex).__name__, str(ex)[:120],
                                                                        "built" if state["stage"] == "build" else "serviced"),
-                 wit({"shape": spec["shape"], "kind": req["kind"]}))
-        ctx.hit("shape:" + spec["shape"])
+                 wit({"shape": (spec or {}).get("shape"), "kind": (req or {}).get("kind")}))
+        if spec:
+            ctx.hit("shape:" + spec["shape"])
     finally:
         if pair:
             pair.close()
@@ -257,5 +282,7 @@ def run(ctx):
         ctx.floor("kind:" + k, total // 60)
     for s in hg.APP_SHAPES:
         ctx.floor("shape:" + s, total // 60)
+    ctx.floor("later_request_other_payload_kind", total // 12)
+    ctx.floor("bodiless_response_in_sequence", total // 40)
     for m in hg.METHODS:
         ctx.floor("method:" + m, total // 60)
